@@ -266,6 +266,12 @@ def init (cfg : Config S) (P : NodeId → Proto S σ) : World S σ :=
       pstate := fun n => (P n).init, rtrace := [], raccepted := [], rexecuted := [] }
   if cfg.hasMob then sched cfg.dt .mobTick w0 else w0
 
+/-- the state after `build()` followed by requests issued through the nodes' providers before the first
+    step (`pre`: node and the requests it issues, in the order issued). The requests go through the very
+    handlers a callback's requests go through; the protocol state they return is dropped (no callback ran). -/
+def initWith (cfg : Config S) (P : NodeId → Proto S σ) (pre : List (NodeId × Prog S σ)) : World S σ :=
+  pre.foldl (fun w np => (runProg cfg np.1 np.2 w).1) (init cfg P)
+
 /-- the part of a step that pops and executes one event -/
 def execStep (cfg : Config S) (P : NodeId → Proto S σ) (e : Ev (EvKind S)) (rest : List (Ev (EvKind S)))
     (w : World S σ) : World S σ :=
